@@ -70,7 +70,9 @@ def procvar_group(case, fast):
     leaves it after `allocate()`) for a JSON case: terminals with their `pdos` tables, process variables declared
     on generated terminal classes (ProcessDesc/PacketDesc, optionally inside a Struct channel with position
     offsets) and linked to the TerminalVars of generated Device subclasses whose `program()` and `update()`
-    both execute the case's assignment statements through the real descriptors."""
+    both execute the case's assignment statements through the real descriptors.  A variable with `alias: k` links the
+    very PacketVar object of variable k; `prior: {devs}` first runs one cycle of those devices in a slow sync group of
+    their own (all-zero process data and DeviceVars), as if they had been used in an earlier group."""
     from ebpfcat.ebpfcat import (FastSyncGroup, SyncGroup, SyncManager, EBPFTerminal, Device, TerminalVar,
                                  DeviceVar, PacketDesc, ProcessDesc, Struct)
     ec = _FakeEC()
@@ -84,7 +86,7 @@ def procvar_group(case, fast):
     for ti, ts in enumerate(case["terms"]):
         attrs = {}
         for vi, v in enumerate(case["vars"]):
-            if v["t"] != ti:
+            if v["t"] != ti or v.get("alias") is not None:
                 continue
             if v["struct"] is None:
                 attrs[f"v{vi}"] = desc(v["desc"])
@@ -115,19 +117,33 @@ def procvar_group(case, fast):
                     setattr(self, f"tv{o['dst']}", val)
         attrs["program"] = body
         attrs["update"] = body
-        dev = type(f"D{di}", (Device,), attrs)()
-        for vi, v in enumerate(case["vars"]):
-            if v["dev"] == di:
-                t = terms[v["t"]]
-                pv = getattr(t, f"v{vi}") if v["struct"] is None else getattr(t, f"c{vi}").m
-                setattr(dev, f"tv{vi}", pv)
-        devs.append(dev)
+        devs.append(type(f"D{di}", (Device,), attrs)())
+    objs = {}
+    for vi, v in enumerate(case["vars"]):
+        if v.get("alias") is None:
+            t = terms[v["t"]]
+            objs[vi] = getattr(t, f"v{vi}") if v["struct"] is None else getattr(t, f"c{vi}").m
+    for vi, v in enumerate(case["vars"]):
+        setattr(devs[v["dev"]], f"tv{vi}", objs[vi if v.get("alias") is None else v["alias"]])
 
     pvs = [devs[v["dev"]].__dict__[f"tv{vi}"] for vi, v in enumerate(case["vars"])]
     if not fast:
+        prior = None
+        if case.get("prior"):
+            pdevs = [devs[i] for i in case["prior"]["devs"]]
+            prior = SyncGroup(ec, pdevs)
+            prior.allocate()
+            prior.current_data = bytearray(prior.packet.assemble(6, 0x88A4))
+            for j, d in enumerate(case["dvs"]):
+                if d["dev"] in case["prior"]["devs"]:
+                    setattr(devs[d["dev"]], f"dv{j}", 0)
+            frame = bytes(prior.current_data)
+            for dev in pdevs:
+                dev.update()
+            prior = {"sg": prior, "frame": frame}
         sg = SyncGroup(ec, devs)
         sg.allocate()
-        return {"sg": sg, "terms": terms, "devs": devs, "pvs": pvs}
+        return {"sg": sg, "terms": terms, "devs": devs, "pvs": pvs, "prior": prior}
     with fsim.fake_maps() as created:
         sg = FastSyncGroup(ec, devs)
         sg.allocate()
